@@ -28,6 +28,9 @@ type Gen struct {
 	current  atomic.Value // string: the case being executed (for the watchdog)
 	started  int64        // unix nano of the current case start
 	Sync     bool // announce every case on stderr before running it, flush after (crash diagnosis)
+	sample   [][2]string // reservoir of (op, args) re-executed in shuffled order at the end
+	seen     int
+	noSample bool
 	Stats    map[string]int
 	Exhaust  []string // names of finite sub-domains enumerated completely
 }
@@ -70,6 +73,22 @@ func (g *Gen) Case(op, args, key string, f func() string) {
 	if g.Sync {
 		g.out.Flush()
 	}
+}
+
+// rerunSample re-executes a reservoir sample of the cases of this run in shuffled order, as ordinary
+// case lines: a function whose result depends on hidden state left behind by earlier calls (a cache,
+// a scratch buffer, a memo table) gives a different - wrong - answer the second time round.
+func (g *Gen) rerunSample() {
+	g.noSample = true
+	s := g.sample
+	for i := len(s) - 1; i > 0; i-- {
+		j := g.R.Intn(i + 1)
+		s[i], s[j] = s[j], s[i]
+	}
+	for _, c := range s {
+		g.Do(c[0], c[1], "")
+	}
+	g.Stats["rerun-shuffled"] = len(s)
 }
 
 func try(f func() string) (r string) {
@@ -144,6 +163,7 @@ func main() {
 		g.Stats["corpus"] = g.n
 	}
 	f(g)
+	g.rerunSample()
 	g.out.Flush()
 	// summary on stderr: STAT lines
 	keys := make([]string, 0, len(g.Stats))
